@@ -1,9 +1,641 @@
+// File operations of the array engine (C06): set_format / set_filetype / precisions /
+// cksave / save / fsave / restart / load / fload on a simulated disk, checked with
+// independent readers (readers.h) and against ArrayModel.
 #include "core.h"
 #include "arraymodel.h"
 #include "array_common.h"
-bool array_file_op(Ctx &, const Op &, int, vnadata_t **, ArrayModel *,
-	std::function<void(int, const char *)>, std::function<void(int)>)
+#include "readers.h"
+
+namespace {
+
+struct Spec { int param; int form; };	// form: 0 ri, 1 ma, 2 dB, 3 PRC, 4 PRL, 5 SRC, 6 SRL, 7 IL, 8 RL, 9 VSWR
+
+// canonical text and meaning of one specifier, from the table in vnadata(3)
+static bool parse_spec(const std::string &in, Spec &sp, std::string &canon)
 {
+    std::string s;
+    for (char ch : in) if (!isspace((unsigned char)ch)) s += (char)tolower((unsigned char)ch);
+    static const struct { const char *name; int form; int param; } special[] = {
+	{"prc", 3, VPT_ZIN}, {"prl", 4, VPT_ZIN}, {"src", 5, VPT_ZIN}, {"srl", 6, VPT_ZIN}, {"il", 7, VPT_S}, {"rl", 8, VPT_S}, {"vswr", 9, VPT_S}};
+    for (auto &x : special) if (s == x.name) { sp.param = x.param; sp.form = x.form; canon = x.name; for (auto &c : canon) c = (char)toupper((unsigned char)c); return true; }
+    static const struct { const char *name; int param; const char *canon; } params[] = {
+	{"zin", VPT_ZIN, "Zin"}, {"s", VPT_S, "S"}, {"t", VPT_T, "T"}, {"u", VPT_U, "U"}, {"z", VPT_Z, "Z"}, {"y", VPT_Y, "Y"},
+	{"h", VPT_H, "H"}, {"g", VPT_G, "G"}, {"a", VPT_A, "A"}, {"b", VPT_B, "B"}, {"", VPT_UNDEF, ""}};
+    for (auto &p : params) {
+	size_t n = strlen(p.name);
+	if (s.compare(0, n, p.name) != 0) continue;
+	std::string rest = s.substr(n);
+	int form;
+	if (rest == "" || rest == "ri") form = 0;
+	else if (rest == "ma") form = 1;
+	else if (rest == "db") form = 2;
+	else continue;
+	if (p.param == VPT_ZIN && form == 2) return false;
+	if (p.param == VPT_UNDEF && rest == "") return false;
+	sp.param = p.param; sp.form = form;
+	canon = std::string(p.canon) + (form == 0 ? "ri" : form == 1 ? "ma" : "dB");
+	return true;
+    }
     return false;
 }
-void array_gen_file_ops(Rng &, Plan &, ArrayModel *, const std::string &, bool) {}
+static bool parse_format_list(const std::string &text, std::vector<Spec> &out, std::string &canon)
+{
+    out.clear(); canon.clear();
+    size_t pos = 0;
+    for (;;) {
+	size_t c = text.find(',', pos);
+	std::string one = text.substr(pos, c == std::string::npos ? std::string::npos : c - pos);
+	Spec sp; std::string cn;
+	if (!parse_spec(one, sp, cn)) return false;
+	out.push_back(sp);
+	if (!canon.empty()) canon += ",";
+	canon += cn;
+	if (c == std::string::npos) break;
+	pos = c + 1;
+    }
+    return true;
+}
+
+struct SavedFile {
+    ArrayModel m;		// object at save time
+    std::vector<Spec> specs;
+    int filetype = 0;		// as reported by the object after the save
+    int fprec = 7, dprec = 6;
+    bool good = false;		// written by a successful save with no fault fired, not damaged since
+};
+static std::map<std::string, SavedFile> *g_saved;
+static std::map<std::string, SavedFile> &saved() { if (!g_saved) g_saved = new std::map<std::string, SavedFile>(); return *g_saved; }
+
+static double tol_of(int prec) { return prec >= 1000 ? 1e-12 : prec >= 16 ? 1e-13 : 4.0 * pow(10.0, 1 - prec); }
+
+static bool same_bits(zc a, zc b)
+{
+    auto eq = [](double x, double y) { return (x != x && y != y) || (x == y && std::signbit(x) == std::signbit(y)); };
+    return eq(a.real(), b.real()) && eq(a.imag(), b.imag());
+}
+static bool near_real(double got, double want, double rel, double scale)
+{
+    if (!std::isfinite(want) || !std::isfinite(got)) return (want != want && got != got) || want == got;
+    return fabs(got - want) <= rel * std::max(fabs(want), scale);
+}
+
+// one complex quantity written as two numbers in form 0 ri, 1 ma, 2 dB
+static bool pair_matches(int form, double a, double b, zc want, double dtol, int dprec)
+{
+    if (form == 0) return near_real(a, want.real(), dtol, 0) && near_real(b, want.imag(), dtol, 0);
+    double mag = std::abs(want), ang = std::arg(want) * 180.0 / M_PI;
+    double wa = form == 2 ? 20.0 * log10(mag) : mag;
+    if (!near_real(a, wa, dtol, 0) && !(form == 2 && fabs(a - wa) <= 1e-11)) return false;	// dB of magnitudes near 1: absolute floor
+    if (!std::isfinite(mag) || mag == 0) return true;	// angle of zero / infinity is not meaningful
+    // angle: absolute, as coarse as the least precise documented form prints it
+    double atol = dprec >= 1000 ? 1e-10 : std::max(1e-10, 0.6 * pow(10.0, 3 - std::max(dprec, 3)));
+    double da = fabs(b - ang);
+    if (da > 180) da = fabs(360 - da);
+    return da <= atol;
+}
+
+// Touchstone 1 stores Z, Y, H and G normalised to the reference resistance R
+static zc ts1_norm(int ptype, int r, int k, double R, zc v)
+{
+    if (ptype == VPT_Z) return v / R;
+    if (ptype == VPT_Y) return v * R;
+    if (ptype == VPT_H) { if (r == 0 && k == 0) return v / R; if (r == 1 && k == 1) return v * R; }
+    if (ptype == VPT_G) { if (r == 0 && k == 0) return v * R; if (r == 1 && k == 1) return v / R; }
+    return v;
+}
+
+// the model's data in parameter type `to` (through the model's own conversion table)
+static bool model_as(const ArrayModel &m, int to, ArrayModel &out)
+{
+    if (to == VPT_UNDEF || to == m.type) { out = m; return true; }
+    const ConvEntry *e;
+    if (!m.conv_valid(to, &e)) return false;
+    return m.convert(out, to) == 0;
+}
+
+static int ports_from_name(const std::string &name)
+{
+    size_t dot = name.rfind('.');
+    if (dot == std::string::npos) return -1;
+    std::string s = name.substr(dot + 1);
+    if (s.size() >= 3 && s[0] == 's' && s.back() == 'p') {
+	bool dig = true;
+	for (size_t i = 1; i + 1 < s.size(); ++i) if (!isdigit((unsigned char)s[i])) dig = false;
+	if (dig) return atoi(s.c_str() + 1);
+    }
+    return -1;
+}
+
+// (b) what the stored bytes denote, read independently, against the model
+static void check_file_against_model(Ctx &c, const std::string &name, const SavedFile &sf)
+{
+    const ArrayModel &m = sf.m;
+    const std::string &text = simfs()[name];
+    auto bad = [&](const std::string &msg) { c.violate("model", "save:file", strf("independent reader, file %s (%s): %s", name.c_str(), sf.filetype == 1 ? "Touchstone 1" : sf.filetype == 2 ? "Touchstone 2" : "NPD", msg.c_str())); };
+    double dtol = tol_of(sf.dprec), ftol = sf.fprec >= 1000 ? 0 : 0.6 * pow(10.0, 1 - sf.fprec);
+    int ports = m.C;
+    if (sf.filetype == VNADATA_FILETYPE_TOUCHSTONE1 || sf.filetype == VNADATA_FILETYPE_TOUCHSTONE2) {
+	TsFile t = read_touchstone(text, sf.filetype == 1 ? ports_from_name(name) : -1);
+	if (!t.ok) { bad("not readable as Touchstone: " + t.error); return; }
+	if ((sf.filetype == 2) != (t.version == 2)) { bad(strf("file version %d does not match the object's file type %d", t.version, sf.filetype)); return; }
+	if (t.ports != ports) { bad(strf("file has %d ports, object %d", t.ports, ports)); return; }
+	if ((int)t.freq.size() != m.F) { bad(strf("file has %zu frequencies, object %d", t.freq.size(), m.F)); return; }
+	if (t.version == 2 && !t.saw_end) { bad("Touchstone 2 file without [End]"); return; }
+	const Spec &sp = sf.specs[0];
+	int ptype = sp.param == VPT_UNDEF ? m.type : sp.param;
+	static const char letters[] = "?STUZYHGAB";
+	if (ptype < 1 || ptype > 9 || t.param != letters[ptype]) { bad(strf("option line says %c, requested parameter type %d", t.param, ptype)); return; }
+	const char *fm = sp.form == 0 ? "RI" : sp.form == 1 ? "MA" : "DB";
+	if (t.fmt != fm) { bad(strf("option line says %s, requested %s", t.fmt.c_str(), fm)); return; }
+	if (!near_real(t.R, m.z0[0].real(), dtol, 0)) { bad(strf("R %s, object z0 %s", hexd(t.R).c_str(), hexd(m.z0[0].real()).c_str())); return; }
+	bool mixed = false;
+	for (int p = 1; p < ports; ++p) if (m.z0[p] != m.z0[0]) mixed = true;
+	if (t.version == 2 && mixed) {
+	    if ((int)t.reference.size() != ports) { bad("ports have different impedances but the file has no complete [Reference]"); return; }
+	    for (int p = 0; p < ports; ++p) if (!near_real(t.reference[p], m.z0[p].real(), dtol, 0)) { bad(strf("[Reference] %d = %s, object %s", p, hexd(t.reference[p]).c_str(), hexd(m.z0[p].real()).c_str())); return; }
+	}
+	if (t.version == 1 && mixed) { bad("Touchstone 1 file written for ports with different impedances"); return; }
+	ArrayModel x;
+	if (!model_as(m, ptype, x)) { bad("saved although the data cannot be converted to the requested parameter type"); return; }
+	double R = m.z0[0].real();
+	for (int f = 0; f < m.F; ++f) {
+	    if (!near_real(t.freq[f], m.freq[f], ftol, 0)) { bad(strf("frequency %d = %s, object %s", f, hexd(t.freq[f]).c_str(), hexd(m.freq[f]).c_str())); return; }
+	    double scale = 0;
+	    for (auto &z : x.cell[f]) if (std::isfinite(std::abs(z))) scale = std::max(scale, std::abs(z));
+	    for (int q = 0; q < ports * ports; ++q) {
+		zc want = x.cell[f][q];
+		int r = q / ports, k = q % ports;
+		bool normalised = t.version == 1 && ptype != VPT_S && R != 1.0;
+		if (t.version == 1) want = ts1_norm(ptype, r, k, R, want);
+		zc got = t.data[f][q];
+		bool ok = pair_matches(sp.form, t.raw[f][q].first, t.raw[f][q].second, want, dtol, sf.dprec);
+		if (!ok && normalised) {
+		    // the normalised numbers are reached through an S-parameter copy with z0 = 1: equal to
+		    // rounding, where rounding grows with the distance of the values from the reference
+		    double nscale = 0, cond = 1;
+		    for (int q2 = 0; q2 < ports * ports; ++q2) {
+			double a2 = std::abs(ts1_norm(ptype, q2 / ports, q2 % ports, R, x.cell[f][q2]));
+			nscale = std::max(nscale, a2);
+			if (a2 > 0 && std::isfinite(a2)) cond = std::max(cond, std::max(a2, 1 / a2));
+		    }
+		    double atol = sf.dprec >= 1000 ? 1e-9 : std::max(1e-9, 0.6 * pow(10.0, 3 - std::max(sf.dprec, 3)));
+		    if (cond > 1e3) { c.count("probe.ts1_normalised_skipped_illconditioned"); continue; }
+		    double rel = 1.5 * dtol + 1e-13 * cond * cond + (sp.form == 0 ? 0 : atol * M_PI / 180);
+		    if (sp.form == 2) rel += 0.12 * dtol * fabs(20 * log10(std::abs(want)));	// p digits of the dB value
+		    ok = std::abs(got - want) <= rel * std::abs(want) + 1e-12 * nscale;
+		    if (ok) c.count("probe.ts1_normalised_to_rounding");
+		}
+		if (!ok) { bad(strf("f=%d cell(%d,%d): file %s, object %s (normalised for v1: %d)", f, r, k, hexz(got).c_str(), hexz(want).c_str(), t.version == 1)); return; }
+	    }
+	}
+	c.count(strf("probe.reader_ts%d_ok", t.version));
+	return;
+    }
+    NpdFile n = read_npd(text);
+    if (!n.ok) { bad("not readable as NPD: " + n.error); return; }
+    if (n.ports != ports) { bad(strf("#:ports %d, object %d", n.ports, ports)); return; }
+    if ((int)n.rows.size() != m.F) { bad(strf("%zu data lines, object has %d frequencies", n.rows.size(), m.F)); return; }
+    if (n.per_frequency_z0 != m.per_f) { bad("#:z0 mode does not match the object's impedance mode"); return; }
+    if (!m.per_f) {
+	if ((int)n.z0.size() != ports) { bad(strf("#:z0 lists %zu impedances, object has %d ports", n.z0.size(), ports)); return; }
+	for (int p = 0; p < ports; ++p) if (!near_real(n.z0[p].real(), m.z0[p].real(), dtol, 0) || !near_real(n.z0[p].imag(), m.z0[p].imag(), dtol, 0)) { bad(strf("#:z0 port %d = %s, object %s", p, hexz(n.z0[p]).c_str(), hexz(m.z0[p]).c_str())); return; }
+    }
+    if (n.parameters.size() != sf.specs.size()) { bad(strf("#:parameters lists %zu forms, requested %zu", n.parameters.size(), sf.specs.size())); return; }
+    for (size_t i = 0; i < sf.specs.size(); ++i) {
+	Spec sp; std::string cn;
+	if (!parse_spec(n.parameters[i], sp, cn)) { bad("#:parameters holds an unknown specifier " + n.parameters[i]); return; }
+	int want_param = sf.specs[i].param == VPT_UNDEF ? m.type : sf.specs[i].param;
+	if (sp.param != want_param || sp.form != sf.specs[i].form) { bad("#:parameters entry " + n.parameters[i] + " differs from the requested form"); return; }
+    }
+    for (int f = 0; f < m.F; ++f) {
+	const std::vector<double> &row = n.rows[f];
+	size_t col = 0;
+	auto need = [&](size_t k) { return col + k <= row.size(); };
+	if (!need(1)) { bad("empty data line"); return; }
+	if (!near_real(row[col], m.freq[f], ftol, 0)) { bad(strf("frequency %d = %s, object %s", f, hexd(row[col]).c_str(), hexd(m.freq[f]).c_str())); return; }
+	++col;
+	if (m.per_f) {
+	    if (!need(2 * (size_t)ports)) { bad("data line too short for per-frequency impedances"); return; }
+	    for (int p = 0; p < ports; ++p) {
+		zc want = m.fz0[f][p];
+		if (!near_real(row[col], want.real(), dtol, 0) || !near_real(row[col + 1], want.imag(), dtol, 0)) { bad(strf("f=%d z0 of port %d: file %s%+gj, object %s", f, p, hexd(row[col]).c_str(), row[col + 1], hexz(want).c_str())); return; }
+		col += 2;
+	    }
+	}
+	for (const Spec &s0 : sf.specs) {
+	    int ptype = s0.param == VPT_UNDEF ? m.type : s0.param;
+	    ArrayModel x;
+	    if (!model_as(m, ptype, x)) { bad(strf("saved although the data cannot be converted to parameter type %d", ptype)); return; }
+	    const std::vector<zc> &d = x.cell[f];
+	    double w = 2 * M_PI * m.freq[f];
+	    auto cmp_complex = [&](zc want, const char *what, int idx) -> bool {
+		if (!need(2)) { bad("data line too short"); return false; }
+		double a = row[col], b = row[col + 1];
+		col += 2;
+		bool ok = pair_matches(s0.form, a, b, want, dtol, sf.dprec);
+		if (!ok) bad(strf("f=%d %s[%d] form %d: file (%s, %s), object %s", f, what, idx, s0.form, hexd(a).c_str(), hexd(b).c_str(), hexz(want).c_str()));
+		return ok;
+	    };
+	    auto cmp_real = [&](double want, const char *what, int idx) -> bool {
+		if (!need(1)) { bad("data line too short"); return false; }
+		double a = row[col++];
+		if (!near_real(a, want, dtol, 0)) { bad(strf("f=%d %s[%d]: file %s, object %s", f, what, idx, hexd(a).c_str(), hexd(want).c_str())); return false; }
+		return true;
+	    };
+	    if (s0.form <= 2) {
+		int cnt = ptype == VPT_ZIN ? ports : x.R * ports;
+		for (int q = 0; q < cnt; ++q) if (!cmp_complex(d[q], "cell", q)) return;
+	    } else if (s0.form >= 3 && s0.form <= 6) {
+		for (int p = 0; p < ports; ++p) {
+		    zc z = d[p];
+		    double zr = z.real(), zi = z.imag(), mag2 = zr * zr + zi * zi;
+		    double r1, r2;
+		    switch (s0.form) {
+		    case 3: r1 = mag2 / zr; r2 = -1.0 / (w * (mag2 / zi)); break;	// parallel R, C
+		    case 4: r1 = mag2 / zr; r2 = (mag2 / zi) / w; break;		// parallel R, L
+		    case 5: r1 = zr; r2 = -1.0 / (w * zi); break;			// series R, C
+		    default: r1 = zr; r2 = zi / w; break;				// series R, L
+		    }
+		    if (!cmp_real(r1, "R", p) || !cmp_real(r2, "C/L", p)) return;
+		}
+	    } else if (s0.form == 7) {
+		for (int r = 0; r < ports; ++r) for (int k = 0; k < ports; ++k) { if (r == k) continue; if (!cmp_real(-20.0 * log10(std::abs(d[(size_t)r * ports + k])), "IL", r * ports + k)) return; }
+	    } else if (s0.form == 8) {
+		for (int p = 0; p < ports; ++p) if (!cmp_real(-20.0 * log10(std::abs(d[(size_t)p * ports + p])), "RL", p)) return;
+	    } else {
+		for (int p = 0; p < ports; ++p) { double a = std::abs(d[(size_t)p * ports + p]); if (!cmp_real((1.0 + a) / fabs(1.0 - a), "VSWR", p)) return; }
+	    }
+	}
+	if (col != row.size()) { bad(strf("data line %d has %zu columns, the header implies %zu", f, row.size(), col)); return; }
+    }
+    c.count("probe.reader_npd_ok");
+}
+
+} // namespace
+
+void array_files_reset() { saved().clear(); }
+
+bool array_file_op(Ctx &c, const Op &op, int oi, vnadata_t **obj, ArrayModel *models,
+	std::function<void(int, const char *)> compare, std::function<void(int)> resync)
+{
+    const std::string &k = op.k;
+    vnadata_t *v = obj[oi];
+    ArrayModel &m = models[oi];
+    auto sync_sticky = [&]() {
+	LibCall lc(c);
+	m.filetype = vnadata_get_filetype(v);
+	const char *f = vnadata_get_format(v);
+	m.has_format = f != nullptr; m.format = f ? f : "";
+	lc.done();
+    };
+    if (k == "fmt") {
+	bool null = op.I(1) != 0;
+	std::string text = op.S(0);
+	std::vector<Spec> specs; std::string canon;
+	bool valid = null || parse_format_list(text, specs, canon);
+	int rc, e;
+	{ LibCall lc(c, &op); rc = vnadata_set_format(v, null ? nullptr : text.c_str()); lc.done(); e = lc.saved_errno; }
+	c.log(" set_format(%s) -> %d", null ? "NULL" : text.c_str(), rc);
+	if (c.violated) return true;
+	if (valid && rc != 0) { c.violate("model", "fmt:rc", strf("set_format(\"%s\") failed (errno %s)", text.c_str(), errno_name(e))); return true; }
+	if (!valid) {
+	    if (rc == 0) { c.violate("model", "fmt:rc", strf("set_format(\"%s\") accepted an invalid specifier list", text.c_str())); return true; }
+	    if (e != EINVAL) { c.violate("model", "fmt:errno", strf("set_format(\"%s\") refused with errno %s", text.c_str(), errno_name(e))); return true; }
+	    c.count("probe.refused");
+	} else { m.has_format = !null; m.format = null ? "" : canon; }
+	compare(oi, valid ? "set_format" : "refused set_format");
+	return true;
+    }
+    if (k == "ftype" || k == "fprec" || k == "dprec") {
+	int n = (int)op.I(1);
+	bool valid = k == "ftype" ? (n >= 0 && n <= 3) : n >= 1;
+	int rc, e;
+	{ LibCall lc(c, &op); rc = k == "ftype" ? vnadata_set_filetype(v, (vnadata_filetype_t)n) : k == "fprec" ? vnadata_set_fprecision(v, n) : vnadata_set_dprecision(v, n); lc.done(); e = lc.saved_errno; }
+	if (c.violated) return true;
+	if (valid != (rc == 0)) { c.violate("model", k + ":rc", strf("%s(%d) returned %d", k.c_str(), n, rc)); return true; }
+	if (!valid && e != EINVAL) { c.violate("model", k + ":errno", strf("%s(%d) refused with errno %s", k.c_str(), n, errno_name(e))); return true; }
+	if (valid) { if (k == "ftype") m.filetype = n; else if (k == "fprec") m.fprec = n; else m.dprec = n; }
+	else c.count("probe.refused");
+	compare(oi, valid ? k.c_str() : "refused setter");
+	return true;
+    }
+    if (k == "save") {
+	std::string name = op.S(0).empty() ? "d.npd" : op.S(0);
+	bool use_fsave = op.I(1) != 0, ck_first = op.I(2) != 0;
+	int rck = 0, eck = 0;
+	bool fired = false;
+	if (ck_first) {
+	    LibCall lc(c);
+	    rck = vnadata_cksave(v, name.c_str());
+	    lc.done();
+	    eck = lc.saved_errno;
+	}
+	int rc, e, crc = 0;
+	size_t ncb;
+	{
+	    LibCall lc(c, &op);
+	    if (use_fsave) {
+		FILE *fp = simfs_open(name.c_str(), "w");
+		rc = -1;
+		if (fp) {
+		    rc = vnadata_fsave(v, fp, name.c_str());
+		    int se = errno, in = g_sim.in_lib;
+		    g_sim.in_lib = 0;
+		    crc = fclose(fp);
+		    g_sim.in_lib = in;
+		    errno = se;
+		}
+	    } else rc = vnadata_save(v, name.c_str());
+	    fired = g_sim.fired_vna || g_sim.fired_yaml || g_sim.fired_write_err || g_sim.fired_close_err || g_sim.fired_open;
+	    ncb = g_sim.callbacks.size();
+	    lc.done();
+	    e = lc.saved_errno;
+	}
+	c.log(" cksave=%d %s(%s) -> %d close=%d fired=%d cb=%zu", ck_first ? rck : 9, use_fsave ? "fsave" : "save", name.c_str(), rc, crc, (int)fired, ncb);
+	if (c.violated) return true;
+	saved().erase(name);
+	if (!fired) {
+	    if (ck_first && (rck == 0) != (rc == 0)) {
+		c.violate("model", "save:cksave", strf("vnadata_cksave(\"%s\") returned %d (errno %s) but %s returned %d (errno %s)", name.c_str(), rck, errno_name(eck), use_fsave ? "vnadata_fsave" : "vnadata_save", rc, errno_name(e)));
+		return true;
+	    }
+	    if (rc != 0 && e != EINVAL) { c.violate("model", "save:errno", strf("save refused with errno %s, expected EINVAL", errno_name(e))); return true; }
+	    if (rc != 0) c.count("probe.save_refused");
+	} else {
+	    c.count("probe.save_faulted");
+	    if (rc == 0 && crc == 0) c.count("probe.save_ok_despite_fault");
+	}
+	sync_sticky();
+	if (rc == 0 && crc == 0 && !fired) {
+	    SavedFile sf;
+	    sf.m = m;
+	    sf.filetype = m.filetype;
+	    sf.fprec = m.fprec; sf.dprec = m.dprec;
+	    std::string canon;
+	    if (!m.has_format || !parse_format_list(m.format, sf.specs, canon)) { c.violate("model", "save:format", "format string after a successful save is not a valid specifier list: " + m.format); return true; }
+	    sf.good = true;
+	    check_file_against_model(c, name, sf);
+	    if (c.violated) return true;
+	    saved()[name] = sf;
+	    c.count("probe.save_ok");
+	    c.count(strf("save.filetype.%d", sf.filetype));
+	    for (auto &sp : sf.specs) c.count(strf("save.form.%d", sp.form));
+	    c.nontrivial = true;
+	}
+	compare(oi, "save (object data must be unchanged)");
+	return true;
+    }
+    if (k == "load") {
+	std::string name = op.S(0).empty() ? "d.npd" : op.S(0);
+	if (!simfs().count(name)) return true;
+	bool use_fload = op.I(1) != 0;
+	int rc, e;
+	bool fired;
+	size_t ncb; std::string cbmsg;
+	int file_type_before = m.filetype;
+	{
+	    LibCall lc(c, &op);
+	    if (use_fload) {
+		FILE *fp = simfs_open(name.c_str(), "r");
+		rc = -1;
+		if (fp) {
+		    rc = vnadata_fload(v, fp, name.c_str());
+		    int se = errno, in = g_sim.in_lib;
+		    g_sim.in_lib = 0;
+		    fclose(fp);
+		    g_sim.in_lib = in;
+		    errno = se;
+		}
+	    } else rc = vnadata_load(v, name.c_str());
+	    fired = g_sim.fired_vna || g_sim.fired_read_eio || g_sim.fired_read_eof || g_sim.fired_open;
+	    ncb = g_sim.callbacks.size();
+	    if (ncb) cbmsg = g_sim.callbacks[0].msg;
+	    lc.done();
+	    e = lc.saved_errno;
+	}
+	c.log(" %s(%s) -> %d errno=%s fired=%d", use_fload ? "fload" : "load", name.c_str(), rc, rc ? errno_name(e) : "-", (int)fired);
+	if (c.violated) return true;
+	auto it = saved().find(name);
+	bool good = it != saved().end() && it->second.good && !fired;
+	if (good) {
+	    // a name without a recognised extension is read as the destination's current file type
+	    // (NPD when that is unset): only then is the outcome predicted
+	    size_t dot = name.rfind('.');
+	    std::string ext = dot == std::string::npos ? "" : name.substr(dot + 1);
+	    bool known_ext = ext == "ts" || ext == "npd" || ports_from_name(name) >= 0;
+	    int dst_type = file_type_before;
+	    if (!known_ext && !(dst_type == it->second.filetype || (dst_type == 0 && it->second.filetype == 3) ||
+			(dst_type != 0 && dst_type != 3 && it->second.filetype != 3))) good = false;
+	}
+	if (good) {
+	    const SavedFile &sf = it->second;
+	    bool loadable = false;
+	    for (auto &sp : sf.specs) if (sp.form <= 6) loadable = true;
+	    if (rc != 0) {
+		if (loadable) { c.violate("model", "load:rc", strf("file %s written by a successful save (format %s) is rejected by the loader: errno %s %s", name.c_str(), sf.m.format.c_str(), errno_name(e), cbmsg.c_str())); return true; }
+		c.count("probe.load_scalar_only_rejected");
+		resync(oi);
+		compare(oi, "failed load");
+		return true;
+	    }
+	    // (c) the loaded object equals the saved one in whichever listed type the loader chose
+	    int T, R, C, F;
+	    { LibCall lc(c); T = vnadata_get_type(v); R = vnadata_get_rows(v); C = vnadata_get_columns(v); F = vnadata_get_frequencies(v); lc.done(); }
+	    auto bad = [&](const std::string &msg) { c.violate("model", "load:value", strf("load of %s (saved as %s, file type %d, dprecision %d): %s", name.c_str(), sf.m.format.c_str(), sf.filetype, sf.dprec, msg.c_str())); };
+	    // which of the saved forms of type T carries the most direct representation
+	    // (rectangular, then polar / R-C-L forms, then dB)
+	    int best_form = -1;
+	    for (auto &sp : sf.specs) {
+		int pt = sp.param == VPT_UNDEF ? sf.m.type : sp.param;
+		if (pt != T || sp.form > 6) continue;
+		int rank = sp.form == 0 ? 0 : T == VPT_ZIN ? (sp.form >= 3 ? 1 : 2) : sp.form;
+		int brank = best_form < 0 ? 99 : best_form == 0 ? 0 : T == VPT_ZIN ? (best_form >= 3 ? 1 : 2) : best_form;
+		if (rank < brank) best_form = sp.form;
+	    }
+	    if (best_form < 0) { bad(strf("loaded parameter type %d is none of the saved forms", T)); return true; }
+	    ArrayModel x;
+	    if (!model_as(sf.m, T, x)) { bad("loaded type cannot be derived from the saved object"); return true; }
+	    if (R != x.R || C != x.C || F != x.F) { bad(strf("dimensions %dx%dx%d, expected %dx%dx%d", F, R, C, x.F, x.R, x.C)); return true; }
+	    double dtol = tol_of(sf.dprec), ftol = sf.fprec >= 1000 ? 0 : 0.6 * pow(10.0, 1 - sf.fprec);
+	    bool normalised = sf.filetype == 1 && T != VPT_S && sf.m.z0[0].real() != 1.0;
+	    bool exact = sf.dprec >= 1000 && best_form == 0 && !normalised;
+	    double rlctol = dtol * 10 + 4 * (sf.fprec >= 1000 ? 0 : pow(10.0, 1 - sf.fprec));	// C and L are tied to the printed frequency
+	    for (int f = 0; f < F && !c.violated; ++f) {
+		double fr; { LibCall lc(c); fr = vnadata_get_frequency(v, f); lc.done(); }
+		if (!near_real(fr, x.freq[f], ftol, 0)) { bad(strf("frequency %d = %s, saved %s", f, hexd(fr).c_str(), hexd(x.freq[f]).c_str())); break; }
+		for (int p = 0; p < x.P(); ++p) {
+		    cplx z; { LibCall lc(c); z = vnadata_get_fz0(v, f, p); lc.done(); }
+		    zc want = sf.m.z0_at(f)[p];
+		    if (!near_real(__real__ z, want.real(), dtol, 0) || !near_real(__imag__ z, want.imag(), dtol, 0)) { bad(strf("z0[f=%d][port=%d] = %s, saved %s", f, p, hexz(toz(z)).c_str(), hexz(want).c_str())); break; }
+		}
+		if (c.violated) break;
+		for (int q = 0; q < R * C; ++q) {
+		    cplx a; { LibCall lc(c); a = vnadata_get_cell(v, f, q / C, q % C); lc.done(); }
+		    zc got = toz(a), want = x.cell[f][q];
+		    if (normalised) {	// the file holds (and rounds) the normalised numbers
+			double R0 = sf.m.z0[0].real();
+			got = ts1_norm(T, q / C, q % C, R0, got);
+			want = ts1_norm(T, q / C, q % C, R0, want);
+		    }
+		    bool ok;
+		    if (exact) ok = same_bits(got, want);
+		    else if (!std::isfinite(std::abs(want)) || !std::isfinite(std::abs(got))) ok = true;	// non-finite values have no portable text form
+		    else if (best_form == 0) ok = near_real(got.real(), want.real(), dtol * 1.5, 0) && near_real(got.imag(), want.imag(), dtol * 1.5, 0);
+		    else if (best_form == 1 || best_form == 2) {
+			double mg = std::abs(got), mw = std::abs(want);
+			ok = pair_matches(best_form, best_form == 2 ? 20.0 * log10(mg) : mg, std::arg(got) * 180.0 / M_PI, want, dtol * 1.5, sf.dprec);
+		    } else ok = std::abs(got - want) <= rlctol * std::abs(want);
+		    if (!ok && normalised) {
+			double nscale = 0, cond = 1;
+			for (int q2 = 0; q2 < R * C; ++q2) {
+			    double a2 = std::abs(ts1_norm(T, q2 / C, q2 % C, sf.m.z0[0].real(), x.cell[f][q2]));
+			    nscale = std::max(nscale, a2);
+			    if (a2 > 0 && std::isfinite(a2)) cond = std::max(cond, std::max(a2, 1 / a2));
+			}
+			double atol = sf.dprec >= 1000 ? 1e-9 : std::max(1e-9, 0.6 * pow(10.0, 3 - std::max(sf.dprec, 3)));
+			if (cond > 1e3) { c.count("probe.ts1_normalised_skipped_illconditioned"); continue; }
+			double rel = 2.5 * dtol + 2e-13 * cond * cond + (best_form ? atol * M_PI / 180 : 0);
+			if (best_form == 2) rel += 0.12 * dtol * fabs(20 * log10(std::abs(want)));
+			ok = std::abs(got - want) <= rel * std::abs(want) + 1e-11 * nscale;
+		    }
+		    if (!ok) { bad(strf("f=%d cell %d = %s, saved %s (stored in form %d)%s", f, q, hexz(got).c_str(), hexz(want).c_str(), best_form, exact ? ": must be bit-exact at maximum precision" : "")); break; }
+		}
+	    }
+	    if (c.violated) return true;
+	    c.count("probe.load_ok");
+	    if (exact) c.count("probe.load_exact");
+	    c.nontrivial = true;
+	} else {
+	    c.count(fired ? "probe.load_faulted" : "probe.load_unpredicted");
+	}
+	resync(oi);
+	compare(oi, "load");
+	return true;
+    }
+    if (k == "restart") {
+	for (int q = 0; q < NOBJ; ++q) { LibCall lc(c); vnadata_free(obj[q]); lc.done(); }
+	check_ledger_empty(c, "restart (all vnadata objects freed)");
+	for (int q = 0; q < NOBJ; ++q) {
+	    LibCall lc(c);
+	    obj[q] = vnadata_alloc(op.I(1) ? sim_error_fn : nullptr, nullptr);
+	    lc.done();
+	    models[q] = ArrayModel();
+	}
+	c.count("fault.restart.fired");
+	return true;
+    }
+    return false;
+}
+
+// ------------------------------------------------------------------ generator
+static const char *MATRIX_PARAMS[] = {"S", "T", "U", "Z", "Y", "H", "G", "A", "B"};
+
+void array_gen_file_ops(Rng &rng, Plan &plan, ArrayModel *m, const std::string &check, bool thorough)
+{
+    bool faults = check.find("faulty") != std::string::npos;
+    auto mk = [](const char *k, std::initializer_list<long> i) { Op o; o.k = k; o.i = i; return o; };
+    int cycles = (int)rng.range(1, thorough ? 4 : 3);
+    for (int cy = 0; cy < cycles; ++cy) {
+	int o = (int)rng.below(NOBJ);
+	// shape: mostly square S/Z/Y of 1..6 ports or a 2x2 of any type, sometimes Zin
+	int t, R, C;
+	double u = rng.uni();
+	if (u < 0.5) { t = rng.pick(std::vector<int>{VPT_S, VPT_Z, VPT_Y}); R = C = (int)rng.range(1, 6); }
+	else if (u < 0.85) { t = (int)rng.range(1, 9); R = C = 2; if (t == VPT_S || t == VPT_Z || t == VPT_Y) R = C = 2; }
+	else if (u < 0.95) { t = VPT_ZIN; R = 1; C = (int)rng.range(1, 5); }
+	else { t = (int)rng.below(VPT_NTYPES); R = C = (int)rng.range(0, 3); if (t == VPT_ZIN) R = 1; if (t >= VPT_T && t <= VPT_B && t != VPT_Z && t != VPT_Y) R = C = 2; }
+	if (!ArrayModel::dims_ok(t, R, C)) { t = VPT_S; R = C = 2; }
+	int F = (int)rng.range(rng.chance(0.05) ? 0 : 1, 4);
+	plan.ops.push_back(mk("init", {o, t, R, C, F}));
+	m[o].init(t, R, C, F);
+	// impedances
+	double z = rng.uni();
+	if (z < 0.35) {}
+	else if (z < 0.55) { plan.ops.push_back(mk("z0vset", {o, (long)rng.below(1000000), rng.chance(0.5) ? 3 : 2})); }
+	else if (z < 0.75) { plan.ops.push_back(mk("z0vset", {o, (long)rng.below(1000000), 0})); }
+	else if (z < 0.85) { plan.ops.push_back(mk("z0vset", {o, (long)rng.below(1000000), 1})); }
+	else if (F > 0) { for (int f = 0; f < F; ++f) plan.ops.push_back(mk("fz0vset", {o, f, (long)rng.below(1000000), (long)rng.below(2)})); }
+	// data
+	{
+	    long sd = (long)rng.below(1000000);
+	    int cls = rng.chance(0.8) ? 0 : 9;
+	    plan.ops.push_back(mk("fill", {o, sd, cls}));
+	    if (rng.chance(0.15) && F > 0 && R * C > 0) {	// value magnitudes 1e-12 .. 1e12
+		plan.ops.push_back(mk("setm", {o, (int)rng.below(F), (long)rng.below(1000000), 1}));
+	    }
+	}
+	int saves = (int)rng.range(1, 3);
+	for (int sv = 0; sv < saves; ++sv) {
+	    // precisions
+	    if (rng.chance(0.6)) { long p = rng.chance(0.25) ? 1000 : rng.range(1, 17); if (rng.chance(0.03)) p = rng.range(-1, 0); plan.ops.push_back(mk("dprec", {o, p})); }
+	    if (rng.chance(0.5)) { long p = rng.chance(0.25) ? 1000 : rng.range(1, 17); plan.ops.push_back(mk("fprec", {o, p})); }
+	    // file kind
+	    int ports = C;
+	    std::string name;
+	    double fk = rng.uni();
+	    int kind;	// 1 ts1, 2 ts2, 3 npd, 0 no extension
+	    if (fk < 0.3) { kind = 1; name = strf("f%d_%d.s%dp", cy, sv, ports); }
+	    else if (fk < 0.5) { kind = 2; name = strf("f%d_%d.ts", cy, sv); }
+	    else if (fk < 0.9) { kind = 3; name = strf("f%d_%d.npd", cy, sv); }
+	    else { kind = 0; name = strf("f%d_%d.dat", cy, sv); }
+	    if (rng.chance(0.25)) plan.ops.push_back(mk("ftype", {o, rng.chance(0.05) ? rng.range(4, 6) : rng.range(0, 3)}));
+	    // format list
+	    if (rng.chance(0.8)) {
+		Op f = mk("fmt", {o, 0});
+		std::string text;
+		int nspec = kind == 3 || kind == 0 ? (int)rng.range(1, 4) : (rng.chance(0.92) ? 1 : 2);
+		for (int q = 0; q < nspec; ++q) {
+		    std::string sp;
+		    double w = rng.uni();
+		    bool touch = kind == 1 || kind == 2;
+		    if (w < (touch ? 0.85 : 0.5)) {
+			const char *p = touch && rng.chance(0.9) ? rng.pick(std::vector<const char *>{"S", "Z", "Y", "H", "G"}) : MATRIX_PARAMS[rng.below(9)];
+			if (rng.chance(0.15)) p = "";
+			const char *co = rng.pick(std::vector<const char *>{"ri", "ma", "dB", ""});
+			if (!*p && !*co) co = "ri";
+			sp = std::string(p) + co;
+		    } else if (w < 0.65) sp = std::string("Zin") + rng.pick(std::vector<const char *>{"ri", "ma", ""});
+		    else sp = rng.pick(std::vector<const char *>{"PRC", "PRL", "SRC", "SRL", "IL", "RL", "VSWR"});
+		    if (rng.chance(0.1)) for (auto &ch : sp) ch = rng.chance(0.5) ? (char)toupper((unsigned char)ch) : (char)tolower((unsigned char)ch);
+		    if (rng.chance(0.02)) sp = rng.pick(std::vector<const char *>{"Q", "Sxx", "ZindB", "", "S ri x"});
+		    if (!text.empty()) text += ",";
+		    text += sp;
+		}
+		f.s = {text};
+		plan.ops.push_back(f);
+	    } else if (rng.chance(0.3)) plan.ops.push_back(mk("fmt", {o, 1}));
+	    Op s = mk("save", {o, rng.chance(0.3) ? 1 : 0, rng.chance(0.7) ? 1 : 0});
+	    s.s = {name};
+	    if (faults && rng.chance(0.4)) {
+		Fault ft;
+		double w = rng.uni();
+		if (w < 0.4) { ft.t = "alloc.vna"; ft.n = rng.range(1, 12); }
+		else if (w < 0.7) { ft.t = "write.err"; ft.n = rng.range(0, 600); ft.e = rng.chance(0.5) ? ENOSPC : EIO; }
+		else if (w < 0.85) ft.t = "close.err";
+		else { ft.t = "open.fail"; ft.e = rng.chance(0.5) ? EACCES : ENOSPC; }
+		s.f.push_back(ft);
+	    }
+	    plan.ops.push_back(s);
+	    // load it back
+	    if (rng.chance(0.9)) {
+		int dst = rng.chance(0.5) ? o : (int)rng.below(NOBJ);
+		if (rng.chance(0.6)) { plan.ops.push_back(mk("restart", {0, rng.chance(0.8) ? 1 : 0})); }
+		else if (rng.chance(0.3)) plan.ops.push_back(mk("realloc", {dst, 1}));
+		Op l = mk("load", {dst, rng.chance(0.3) ? 1 : 0});
+		l.s = {name};
+		if (faults && rng.chance(0.3)) {
+		    Fault ft;
+		    double w = rng.uni();
+		    if (w < 0.5) { ft.t = "alloc.vna"; ft.n = rng.range(1, 20); }
+		    else if (w < 0.75) { ft.t = "read.eio"; ft.n = rng.range(0, 500); }
+		    else { ft.t = "read.eof"; ft.n = rng.range(0, 500); }
+		    l.f.push_back(ft);
+		}
+		plan.ops.push_back(l);
+		// the shadow models are only used for index choices; after a restart they are empty
+		break;
+	    }
+	}
+    }
+    (void)m;
+}
